@@ -1,8 +1,9 @@
 CONSTANTS
   KeepFirstError = TRUE
   RecoverPerStage = TRUE
+  FirstErrorWins = TRUE
 SPECIFICATION TraceSpec
-INVARIANTS AtMostOnce OnlyAfterAll ErrorReported PendingSane
+INVARIANTS AtMostOnce OnlyAfterAll ErrorReported PendingSane PreOrderOK NoOpAfterFailure FailureIsOutcome WalkComplete
 CONSTRAINT HighWater
 POSTCONDITION TraceAccepted
 CHECK_DEADLOCK FALSE
